@@ -54,7 +54,9 @@ def crypto_kills(ctx, also=None):
             return w
         if not good:
             return None
-        if exc == 'EncrError' and fi.qual in ('crypto.Cipher.decrypt', 'crypto.Cipher.encrypt'):
+        if exc == 'EncrError' and call is None and fi.cls is not None and fi.cls.qual == 'crypto.Cipher' \
+                and text.startswith('raise EncrError') and _guarded_by_key_size(node):
+            # only the raise under the key-length test is discharged; any other EncrError (IV size, ...) is kept
             return 'key length equals cipher.key_size by construction (who-constructs Crypto)'
         if exc == 'ValueError' and fi.qual in ('crypto.Cipher.decrypt', 'crypto.Cipher.encrypt') \
                 and text.startswith('self._algorithm('):
@@ -64,6 +66,13 @@ def crypto_kills(ctx, also=None):
                     'decrypted; plaintext is padded to a block multiple by PayloadSK.generate (C07/E3)')
         return None
     return kills
+
+
+def _guarded_by_key_size(node):
+    """the CFG node is reached only through the true edge of `len(<key>) != self.key_size`"""
+    preds = [(lab, p) for lab, p in node.pred if not isinstance(lab, tuple)]
+    return bool(preds) and all(p.kind == 'cond' and lab == 'T' and src(p.ast).startswith('len(') and
+                               src(p.ast).endswith('!= self.key_size') for lab, p in preds)
 
 
 def find_calls(ctx, fi, qual=None, name=None, lib=None):
